@@ -3,6 +3,7 @@
 package verifstack
 
 import (
+	"github.com/glebziz/fs_db"
 	"github.com/glebziz/fs_db/internal/verifenv"
 	nd "github.com/glebziz/fs_db/internal/verifnd"
 )
@@ -33,6 +34,7 @@ func VerifH09c() {
 		nd.Assert(w.doSet(0, "a", w.freshVal(), 0) == nil, "H09c.later")
 	}
 	readKeys := nd.Choice("reader-op", 2) == 1
+	nd.SpawnRunsFirst(true)
 	nd.SetPreemptionBound(P)
 	go func() {
 		w.gc("H09c")
@@ -53,4 +55,63 @@ func VerifH09c() {
 	verifenv.RunJobs()
 	w.checkReads("H09c.after-drain")
 	nd.Reach("H09c.end")
+}
+
+// VerifH09d: the collector after a snapshot that began while a commit was in progress. A
+// transaction overwrites key a (and optionally b) and commits while another goroutine begins a
+// snapshot transaction; whichever side of the commit the snapshot fell on, a collector run
+// afterwards changes none of its reads.
+func VerifH09d() {
+	P := 1
+	if nd.Tier() == 1 {
+		P = 2
+	}
+	nd.Bound("H09d.preemption_bound", P)
+	concreteCounter = true
+	keys := []string{"a", "b"}[:1+nd.Choice("keys", 2)]
+	w := newWorld(stdConfig(), keys)
+	for _, k := range keys {
+		nd.Assert(w.doSet(0, k, w.freshVal(), 0) == nil, "H09d.pre")
+	}
+	t := w.begin(allLevels[nd.Choice("committer-level", 4)])
+	for _, k := range keys {
+		nd.Assert(w.doSet(t, k, w.freshVal(), 0) == nil, "H09d.tx-write")
+	}
+	var snap fs_db.Tx
+	var berr error
+	lv := snapshotLevels[nd.Choice("level", 2)]
+	nd.SpawnRunsFirst(true)
+	nd.SetPreemptionBound(P)
+	go func() { snap, berr = w.d.Begin(ctx, lv) }()
+	cerr := w.txs[t].h.Commit(ctx)
+	nd.JoinAll()
+	nd.SetPreemptionBound(0)
+	nd.Assert(cerr == nil && berr == nil, "H09d.commit-and-begin-ok")
+	type res struct {
+		val []byte
+		ok  bool
+	}
+	read := func(id string) []res {
+		var out []res
+		for _, k := range keys {
+			b, err := snap.Get(ctx, k)
+			nd.Assert(err == nil || isNotFound(err), id+".read-error-class")
+			out = append(out, res{b, err == nil})
+		}
+		return out
+	}
+	before := read("H09d.before")
+	for i := range keys {
+		nd.Assert(before[i].ok, "H09d.key-with-a-value-throughout-is-found")
+	}
+	w.gc("H09d")
+	verifenv.RunJobs()
+	after := read("H09d.after")
+	for i := range keys {
+		nd.Assert(after[i].ok == before[i].ok, "H09d.collector-changed-a-snapshot-read")
+		if after[i].ok && before[i].ok {
+			nd.Assert(nd.EqBytes(after[i].val, before[i].val), "H09d.collector-changed-a-snapshot-read")
+		}
+	}
+	nd.Reach("H09d.end")
 }
